@@ -287,3 +287,123 @@ fn c18_canary() {
     let c: char = kani::any();
     assert!(FormatAlign::from_char(c).is_none());
 }
+
+static mut FSA_CALLS: u32 = 0;
+static mut FSA_PTR: usize = 0;
+static mut FSA_BYTES: usize = 0;
+static mut FSA_CHARS: usize = 0;
+static mut FSA_SIGN_LEN: usize = 0;
+static mut FSA_DEFAULT_LEFT: bool = false;
+
+/// Recorder standing in for format_sign_and_align (which has its own obligations): captures the
+/// text it is asked to pad.
+fn fsa_recorder<T>(_spec: &FormatSpec, m: &T, sign_str: &str, default_align: FormatAlign) -> Result<String, FormatSpecError>
+where
+    T: CharLen + Deref<Target = str>,
+{
+    unsafe {
+        FSA_CALLS += 1;
+        FSA_PTR = m.deref().as_ptr() as usize;
+        FSA_BYTES = m.deref().len();
+        FSA_CHARS = m.char_len();
+        FSA_SIGN_LEN = sign_str.len();
+        FSA_DEFAULT_LEFT = default_align == FormatAlign::Left;
+    }
+    Ok(String::new())
+}
+
+/// A text value over a fixed buffer, with its character count.
+struct Text<'a> {
+    s: &'a str,
+    chars: usize,
+}
+impl CharLen for Text<'_> {
+    fn char_len(&self) -> usize {
+        self.chars
+    }
+}
+impl Deref for Text<'_> {
+    type Target = str;
+    fn deref(&self) -> &str {
+        self.s
+    }
+}
+
+// @ob id=C18.k.format_string_truncate props=C18,C03 kind=bounded tier=quick
+// @bound texts of 0..2 characters: any Unicode scalar value (1-4 UTF-8 bytes) followed by any ASCII character; precision none, 0..4 or usize::MAX; every width
+// @clause truncation of strings by characters: what format_string hands to the padding step is the prefix of the value holding min(precision, len) characters - cut on a character boundary, never inside a multi-byte character, never a panic - with that character count, no sign and left default alignment (so truncation happens before padding); a non-string type is UnknownFormatCode
+// @fns FormatSpec::format_string FormatSpec::validate_format
+#[kani::proof]
+#[kani::unwind(6)]
+#[kani::stub(FormatSpec::format_sign_and_align, fsa_recorder)]
+fn c18_format_string_truncate() {
+    // shape: n <= 2 characters; the first is any Unicode scalar value, the second is ASCII
+    let c0: char = kani::any();
+    let c1: u8 = kani::any();
+    kani::assume(c1 < 128);
+    let n: usize = kani::any();
+    kani::assume(n <= 2);
+    let mut buf = [0u8; 5];
+    let l0 = c0.encode_utf8(&mut buf[..4]).len();
+    buf[l0] = c1;
+    let ends = [0usize, l0, l0 + 1]; // ends[k] = byte offset after k characters
+    let off = ends[n];
+    let s = unsafe { std::str::from_utf8_unchecked(&buf[..off]) };
+    let text = Text { s, chars: n };
+    let precision: Option<usize> = kani::any();
+    if let Some(p) = precision {
+        // 0..4 and one huge value: everything >= the length takes the same (non-truncating) path
+        kani::assume(p <= 4 || p == usize::MAX);
+    }
+    let width: Option<usize> = kani::any();
+    let spec = ManuallyDrop::new(FormatSpec {
+        conversion: None,
+        fill: None,
+        align: None,
+        sign: None,
+        alternate_form: false,
+        width,
+        grouping_option: None,
+        precision,
+        format_type: if kani::any() { Some(FormatType::String) } else { None },
+    });
+    let r = ManuallyDrop::new(spec.format_string(&text));
+    assert!(r.is_ok());
+    let kept = match precision {
+        Some(p) if p < n => p,
+        _ => n,
+    };
+    unsafe {
+        assert!(FSA_CALLS == 1);
+        assert!(FSA_PTR == s.as_ptr() as usize);
+        assert!(FSA_BYTES == ends[kept]);
+        assert!(FSA_CHARS == kept);
+        assert!(FSA_SIGN_LEN == 0);
+        assert!(FSA_DEFAULT_LEFT);
+    }
+    kani::cover!(kept == 1 && n == 2 && c0.len_utf8() == 3);
+    kani::cover!(kept == 0 && n > 0);
+    kani::cover!(precision.is_some() && precision.unwrap() > n);
+}
+
+// @ob id=C18.k.format_string_wrong_type props=C18 kind=complete tier=quick
+// @clause formatting a string with a non-string presentation type fails (Python raises ValueError: unknown format code) naming that type's character
+// @fns FormatSpec::format_string
+#[kani::proof]
+#[kani::unwind(6)]
+#[kani::stub(FormatSpec::format_sign_and_align, fsa_recorder)]
+fn c18_format_string_wrong_type() {
+    let ft = any_format_type();
+    kani::assume(!matches!(ft, FormatType::String));
+    let ch = char::from(&ft);
+    let spec = ManuallyDrop::new(spec_with(Some(ft), None));
+    let text = Text { s: "ab", chars: 2 };
+    let r = ManuallyDrop::new(spec.format_string(&text));
+    match &*r {
+        Err(FormatSpecError::UnknownFormatCode(c, what)) => {
+            assert!(*c == ch);
+            assert!(what.len() == 3);
+        }
+        _ => assert!(false),
+    }
+}
